@@ -1,6 +1,16 @@
-"""C19 — scheduler timers: proof obligations + correspondence + property oracle."""
+"""C19 — scheduler timers: proof obligations + correspondence + property oracle.
+
+Correspondence (ROBUSTNESS.md rule 4): the implementation runs first; its firing sequence is handed
+to the choice-driven model (coq/C19/AModel.v) as the tie-breaking oracle. The model checks every
+choice against the allowed set (pending, due, a minimum of the pending due times) and computes all
+other results itself. Compared: per-op results (errors, next_timeout values, loop clocks and poll
+timeout, firing log) and the final schedule. Not compared: the heap array, the order among equal
+due times (only validated). The array-heap model of today's tie-breaking policy (coq/C19/Model.v)
+runs alongside; its agreement is a statistic, never a verdict."""
 import hashlib
 import json
+import os
+import re
 
 import ltv
 from gen import c19 as G
@@ -9,41 +19,102 @@ from gen import c19 as G
 # Poll::do_poll(std::chrono::microseconds): wrapped at link time so the harness sees the timeout Thread::event_loop passes
 DO_POLL_SYM = "_ZN7torrent6system4Poll7do_pollENSt6chrono8durationIlSt5ratioILl1ELl1000000EEEE"
 
+PARAM_NAMES = ["sched_min_days_wait", "sched_min_days_update", "sched_max_years_wait_for", "sched_max_years_wait_for_ceil",
+               "sched_max_years_update_for", "sched_max_years_update_for_ceil"]
+DAY = 24 * 3600 * 1000000
+# oracle verdicts that are NOT clauses of property C19 (which error is raised when, output format, the
+# upper bound max_timeout): they never justify a claimed failing input (ROBUSTNESS.md rule 1)
+NONPROP = {"precondition-not-enforced", "spurious-internal-error", "output-shape", "next-timeout-exceeds-max"}
+
+
+def regex_params():
+    """Cross-check only: the values gen/params_c19.py found in the source text (0 = not found)."""
+    out = {}
+    try:
+        txt = open(os.path.join(ltv.COQ, "C19", "ParamsGen.v")).read()
+    except OSError:
+        return out
+    for n in PARAM_NAMES:
+        m = re.search(r"Definition %s : Z := (\d+)%%Z\." % n, txt)
+        if m:
+            out[n] = int(m.group(1))
+    return out
+
 
 def run(rep, tier, seed, replay):
     coq = ltv.coq_build("C19")
     rep.cov.update(obligations=coq["obligations"], discharged=coq["discharged"], checker_cmd=coq["checker_cmd"],
                    theorems=coq["theorems"], axioms_per_theorem=coq["axioms"],
                    trusted_base=ltv.std_trusted_base(coq, [
-                       "modelled not verified: libstdc++ 12 std::__push_heap/__adjust_heap/__pop_heap (coq/C19/Model.v push_loop/adjust_down/adjust_heap), "
-                       "std::unique_ptr identity as a fresh counter, std::function slots as scripts of scheduler ops; "
-                       "tied to the real code by comparing the raw m_heap array after every case",
-                       "int64 overflow of microsecond arithmetic is outside the model (|t| < 2^62)",
+                       "correspondence runs the choice-driven model coq/C19/AModel.v: the implementation's firing sequence is its tie-breaking oracle, "
+                       "each choice is validated (pending, due <= t, minimum of the pending due times), all other outputs are computed by the model",
+                       "constants (365 days, 10 years) are probed from the COMPILED library through the public API (harness --params) and passed to the model; "
+                       "gen/params_c19.py (regex on the source) is a cross-check that may be absent",
+                       "modelled not verified: std::function slots as scripts of scheduler ops; for the instance theorems about today's tie-breaking policy: "
+                       "libstdc++ 12 std::__push_heap/__adjust_heap/__pop_heap (coq/C19/Model.v), std::unique_ptr identity as a fresh counter "
+                       "(its agreement with the raw heap array is measured, not required)",
+                       "int64 overflow of microsecond arithmetic: theorem exec_basic_chk_agrees under the stated range hypotheses",
                        "python reference spec gen/c19.py (Spec/oracle: finite map entry -> due time) for the property verdict on implementation outputs",
-                       "harness/c19.cc slot budget (fuel_exhausted thrown from the slot after k invocations per perform)",
+                       "harness/c19.cc slot budget (fuel_exhausted thrown from the slot after k invocations per perform); per-case watchdog 30 s",
                        "op L runs the REAL Thread::event_loop of a harness Thread subclass for one iteration (real init_thread_local, process_events, "
                        "timeout computation, Poll::do_poll); the clock read by utils::time_since_epoch() is std::chrono::system_clock::now() interposed by "
-                       "the harness executable; Poll::do_poll is wrapped at link time (-Wl,--wrap) to record its timeout argument and the two cached clocks "
-                       "and then runs the real do_poll with timeout 0 (the sleep itself is not simulated); the loop is ended by shutdown_exception from the "
-                       "second call_events; Poll::poll's conversion of the timeout to epoll_wait milliseconds (truncating, int) is outside the model"]))
+                       "the harness executable; Poll::do_poll is wrapped at link time (-Wl,--wrap) to record its timeout argument, the thread's cached_time() and "
+                       "the scheduler's clock (probed through wait_for on a scratch entry) and then runs the real do_poll with timeout 0 (the sleep itself is not "
+                       "simulated); the loop is ended by shutdown_exception from the second call_events; Poll::poll's conversion of the timeout to epoll_wait "
+                       "milliseconds (truncating, int) is outside the model"]))
     model = ltv.build_model("C19")
     impl = ltv.build_harness("c19", ["c19.cc"], libs=["-Wl,--wrap=" + DO_POLL_SYM])
+
+    # constants as the compiled library enforces them
+    pl, perr, prc = ltv.run_lines(impl, [], args=["--params"])
+    try:
+        params = [int(x) for x in pl[0].split()]
+        assert len(params) == 6
+    except Exception:
+        params = None
+        rep.violation("harness --params probe failed: %s %s" % (pl[:1], perr[-300:]), theorem="constants probe", found_input=False)
+    if params is not None:
+        # side conditions the theorems need of the constants (Properties.v: hypotheses 0 < c_min_*)
+        if not (params[0] > 0 and params[1] > 0 and all(p >= 0 for p in params[2:])):
+            rep.violation("probed constants violate the side conditions of the theorems (0 < min time, 0 <= max relative time): %s" % params,
+                          theorem="consts_ok", found_input=False)
+        rx = regex_params()
+        want = {PARAM_NAMES[0]: params[0] // DAY, PARAM_NAMES[1]: params[1] // DAY}
+        for i in range(2, 6):
+            want[PARAM_NAMES[i]] = params[i] // (365 * DAY)
+        cross = {n: (rx.get(n, 0), want[n]) for n in PARAM_NAMES if rx.get(n, 0) not in (0, want[n])}
+        rep.cov.update(probed_constants_us=params, regex_crosscheck=("agrees or absent" if not cross else "differs: %s" % cross))
+    margs = [str(p) for p in params] if params else []
+    if params:
+        G.set_consts(params)
+
     if replay:
         cases = [json.load(open(replay))["case"]]
         stats = {"replay": 1}
     else:
         cases, stats = G.gen(seed, tier)
-    mo = ltv.run_sharded(model, cases)
     io = ltv.run_sharded(impl, cases)
+    io = io + ["MISSING"] * (len(cases) - len(io))
+    mo = ltv.run_sharded(model, [c + " | " + G.choices(o) for c, o in zip(cases, io)], args=margs)
+    mo = mo + ["MISSING"] * (len(cases) - len(mo))
     nontrivial = set()
     mism = 0
     fuel = 0
     fired = 0
+    heap_agree = 0
+    ties = 0
+    api_notes = 0
     samples = []
     reported = {}
     for i, case in enumerate(cases):
-        m = mo[i] if i < len(mo) else "MISSING"
-        o = io[i] if i < len(io) else "MISSING"
+        o = io[i]
+        m_abs, _, m_conc = mo[i].partition(" || ")
+        if o.startswith("CRASH") and ("rc=-14" in o or "TIMEOUT" in o or "Alarm" in o):
+            if reported.get("hang", 0) < 3:
+                reported["hang"] = reported.get("hang", 0) + 1
+                rep.violation("implementation hangs on this op list (per-case watchdog 30 s)", case=case, model=m_abs, impl=o,
+                              theorem="correspondence C19", klass="hang")
+            continue
         viol = G.oracle(case, o)
         if ("_nontrivial", "") in viol:
             nontrivial.add(hashlib.sha1(case.encode()).digest())
@@ -51,9 +122,16 @@ def run(rep, tier, seed, replay):
         if ("fuel", "") in viol:
             fuel += 1
         viol = [v for v in viol if v[0] not in ("_nontrivial", "fuel")]
+        api_notes += sum(1 for v in viol if v[0] in NONPROP)
+        viol = [v for v in viol if v[0] not in NONPROP]
         if len(samples) < 5 and i % 1499 == 7:
             samples.append({"case": case[:300], "impl": o[:300]})
-        if m != o:
+        if m_conc and re.sub(r"FUEL:\d+", "FUEL", o) == m_conc:
+            heap_agree += 1
+        elif m_conc and G.project(re.sub(r"FUEL:\d+", "FUEL", o)) != G.project(m_conc):
+            ties += 1
+        po = G.project(o)
+        if m_abs != po:
             mism += 1
             if reported.get("mismatch", 0) >= 5 and not viol:
                 continue
@@ -61,25 +139,26 @@ def run(rep, tier, seed, replay):
             if viol:
                 kl, text = viol[0]
                 rep.violation("model and implementation differ AND the property fails on the implementation: " + text,
-                              case=case, model=m, impl=o, theorem="correspondence C19 (firing log, next_timeout, loop-iteration clocks and poll timeout, heap array)", klass=kl)
+                              case=case, model=m_abs, impl=po, theorem="correspondence C19 (results, next_timeout, loop clocks and poll timeout, final schedule; ties validated)", klass=kl)
             else:
                 rep.violation("correspondence broken: model and implementation differ on this op list (property oracle holds on it)",
-                              case=case, model=m, impl=o, theorem="correspondence C19 (firing log, next_timeout, loop-iteration clocks and poll timeout, heap array)", found_input=False)
+                              case=case, model=m_abs, impl=po, theorem="correspondence C19 (results, next_timeout, loop clocks and poll timeout, final schedule; ties validated)", found_input=False)
         else:
             for kl, text in viol:
                 if reported.get(kl, 0) >= 5:
                     continue
                 reported[kl] = reported.get(kl, 0) + 1
-                rep.violation(text, case=case, model=m, impl=o, theorem="property oracle C19", klass=kl)
+                rep.violation(text, case=case, model=m_abs, impl=po, theorem="property oracle C19", klass=kl)
     if not coq["ok"]:
         rep.violation("C19 proof obligations no longer check (%d/%d): %s %s" % (
             coq["discharged"], coq["obligations"], "; ".join(coq["lint"] + coq["bad_axioms"]), coq["log"][-1500:]),
             theorem="coq/C19/Properties.v", found_input=False)
     rep.cov.update(evaluations=len(cases), distinct_nontrivial=len(nontrivial),
-                   rule="cases = corpus + hand list + random structured + malformed + big + event-loop iterations (random + exhaustive small scope) + exhaustive small scope "
+                   rule="cases = corpus + hand list + random structured + malformed + big + two schedulers + event-loop iterations (random + exhaustive small scope) + exhaustive small scope "
                         "(quick: all op lists of length<=3 over 3 entries x 3 times x 2 handler configs; thorough: length<=4, and length 5 over 2x2); "
                         "non-trivial = distinct case in which the implementation fired at least one timer, the slot budget was not hit and the oracle holds",
                    samples=samples, input_distribution=stats, mismatches=mism, fuel_cases=fuel, performs_in_nontrivial=fired,
+                   oracle_api_notes=api_notes, array_heap_model_agrees_exactly=heap_agree, array_heap_model_differs_in_results=ties,
                    exhaustive=(tier == "thorough"))
-    rep.assumptions += ["microsecond times stay within int64 (|t| < 2^62)", "single scheduler, single thread",
+    rep.assumptions += ["microsecond times stay within the stated int64 range hypotheses", "single thread",
                         "slots are scripts of scheduler operations (no nested perform)"]
